@@ -164,9 +164,55 @@ constexpr K sentinel_of() {
     return std::numeric_limits<K>::has_infinity ? std::numeric_limits<K>::infinity() : std::numeric_limits<K>::max();
 }
 
+// ---- scale slots: rare, deterministic large-scale runs ---------------------------------------------------------------
+// The third run of every worker, and every 1536th after it, is a "scale slot": sizes far beyond the ordinary ones
+// (a segment spanning more than 2^23 positions, more than 2^24 keys, tens of thousands of segments, files above 4 MiB,
+// hundreds of thousands of resident entries). Their keys come from a compact recipe in the plan header instead of
+// explicit K lines, so plans stay small; such plans cannot be key-minimised, only replayed.
+inline bool scale_slot(const GenCtx &g) {
+#if defined(__SANITIZE_ADDRESS__) || defined(__SANITIZE_THREAD__)
+    (void) g;
+    return false; // plain flavour only: the sanitizers' slowdown and shadow memory make these runs too expensive
+#else
+    return g.profile.empty() && ((g.run_index >> 4) % 1536) == 2;
+#endif
+}
+
+/// recipe = "<kind> <n> <seed> <a> <b> <c>":
+///   linear  n seed step jitter _      positions start + i*step + U[0,jitter]            (one long segment)
+///   skewed  n seed head ap_step tail   head heavy-tailed keys, then an arithmetic progression, then tail heavy-tailed keys
+///   walk    n seed gapbits _ _         heavy-tailed gaps below 2^gapbits                   (very many segments)
+template<typename K>
+bool keys_from_recipe(const PlanText &p, std::vector<K> &v) {
+    if (!p.has("recipe")) return false;
+    auto t = sim::split_ws(p.get("recipe"));
+    if (t.size() < 6) return false;
+    gen::KeyMap<K> km;
+    size_t n = (size_t) std::strtoull(t[1].c_str(), nullptr, 10);
+    Rng r(std::strtoull(t[2].c_str(), nullptr, 10));
+    uint64_t a = std::strtoull(t[3].c_str(), nullptr, 10), b = std::strtoull(t[4].c_str(), nullptr, 10), c = std::strtoull(t[5].c_str(), nullptr, 10);
+    v.clear();
+    v.reserve(n);
+    uint64_t cur = std::min<uint64_t>(p.get_u("recipe_start", 1000), km.U / 2);
+    auto adv = [&](uint64_t gap) { cur = (km.U - cur < gap) ? km.U : cur + gap; };
+    if (t[0] == "linear") {
+        for (size_t i = 0; i < n; ++i) { uint64_t j = b ? r.below(b + 1) : 0; v.push_back(km.at(std::min(km.U, cur + j))); adv(a); }
+        std::sort(v.begin(), v.end());
+    } else if (t[0] == "skewed") {
+        size_t head = (size_t) a, tail = (size_t) c, ap = n > head + tail ? n - head - tail : 0;
+        for (size_t i = 0; i < head; ++i) { adv(1 + r.magnitude(20)); v.push_back(km.at(cur)); }
+        for (size_t i = 0; i < ap; ++i) { adv(b); v.push_back(km.at(cur)); }
+        for (size_t i = 0; i < tail; ++i) { adv(1 + r.magnitude(20)); v.push_back(km.at(cur)); }
+    } else if (t[0] == "walk") {
+        for (size_t i = 0; i < n; ++i) { adv(1 + r.magnitude((unsigned) a)); v.push_back(km.at(cur)); }
+    } else return false;
+    return true;
+}
+
 template<typename K>
 std::vector<K> keys_from_plan(const PlanText &p) {
     std::vector<K> v;
+    if (keys_from_recipe<K>(p, v)) return v;
     v.reserve(p.keys.size());
     for (long double x : p.keys) v.push_back((K) x);
     if (!std::is_sorted(v.begin(), v.end())) { // a defect of the generator or a hand-edited plan, never the library's fault
@@ -369,6 +415,42 @@ std::string gen_keys_into(PlanText &p, size_t n, size_t eps, int chunks, Rng &cf
     return sig;
 }
 
+/// Fills a plan with a scale-slot recipe suited to (key type, epsilon). Returns the motif signature.
+template<typename K>
+std::string set_scale_recipe(PlanText &p, size_t eps, Rng &cfg, Rng &work, bool allow_16m) {
+    gen::KeyMap<K> km;
+    p.keys.clear();
+    uint64_t seed = work.next() >> 1;
+    unsigned kind = (unsigned) cfg.below(allow_16m ? 4 : 3);
+    if (km.U < (uint64_t(1) << 36)) kind = 2; // small universes cannot hold millions of distinct keys: many-segments walk
+    std::string sig;
+    if (kind == 0) {          // one segment spanning more than 2^23 positions (single construction thread)
+        size_t n = (size_t) cfg.range(8450000, 9600000);
+        uint64_t step = cfg.range(1, 200), jitter = cfg.coin() ? 0 : std::min<uint64_t>(step * eps / 2, step * 40);
+        p.set("recipe", "linear " + std::to_string(n) + " " + std::to_string(seed) + " " + std::to_string(step) + " " + std::to_string(jitter) + " 0");
+        p.set("procs", 1); p.set("maxthreads", 1);
+        sig = "scale-linear+";
+    } else if (kind == 1) {   // skewed: many short segments, one covering most positions, many short segments again
+        size_t head = (size_t) cfg.range(300000, 900000), ap = (size_t) cfg.range(2000000, 6000000), tail = (size_t) cfg.range(100000, 300000);
+        p.set("recipe", "skewed " + std::to_string(head + ap + tail) + " " + std::to_string(seed) + " " + std::to_string(head) + " " + std::to_string(cfg.range(1, 50)) + " " + std::to_string(tail));
+        sig = "scale-skewed+";
+    } else if (kind == 2) {   // very many segments
+        size_t n = (size_t) cfg.range(250000, 900000);
+        unsigned gb = km.U < (uint64_t(1) << 36) ? 8 : 30;
+        p.set("recipe", "walk " + std::to_string(n) + " " + std::to_string(seed) + " " + std::to_string(gb) + " 0 0");
+        sig = "scale-walk+";
+    } else {                  // more than 2^24 keys on one line (single construction thread)
+        size_t n = (size_t) cfg.range(16900000, 17600000);
+        p.set("recipe", "linear " + std::to_string(n) + " " + std::to_string(seed) + " " + std::to_string(cfg.range(1, 60)) + " 0 0");
+        p.set("procs", 1); p.set("maxthreads", 1);
+        sig = "scale-linear16m+";
+    }
+    p.set("recipe_start", cfg.range(0, 100000));
+    p.set("qmax", 150000);
+    p.set("scale", 1);
+    return sig;
+}
+
 /// Input predicates shared by all classes (keys of known findings, DESIGN.md 9).
 template<typename K>
 std::string common_preds(const std::vector<K> &data) {
@@ -392,7 +474,7 @@ std::string common_preds(const std::vector<K> &data) {
 }
 
 inline std::string abbreviate_plan(const PlanText &p) {
-    std::string s = p.get("cfg") + " n=" + std::to_string(p.keys.size()) + " procs=" + p.get("procs") + " maxthreads=" + p.get("maxthreads") +
+    std::string s = p.get("cfg") + (p.has("recipe") ? " recipe=[" + p.get("recipe") + "]" : "") + " n=" + std::to_string(p.keys.size()) + " procs=" + p.get("procs") + " maxthreads=" + p.get("maxthreads") +
                     " grants=" + p.get("grants") + " preempt=" + p.get("preempt") + " yield_every=" + p.get("yield_every") + " motifs=" + p.get("motifs") + " keys=[";
     for (size_t i = 0; i < p.keys.size() && i < 6; ++i) s += (i ? "," : "") + sim::ld_to_text(p.keys[i]);
     if (p.keys.size() > 6) s += ",...," + sim::ld_to_text(p.keys.back());
